@@ -33,20 +33,60 @@ namespace WV.C17
 open WV WV.Gen
 
 inductive Err where
-  | noTransition | assertion | attribute | value | onlyOnce | recursion | alreadyCalled
+  | noTransition | assertion | attribute | value | onlyOnce | recursion | alreadyCalled | typeError
   deriving DecidableEq, Repr
 
 def Err.name : Err → String
   | .noTransition => "NoTransition" | .assertion => "AssertionError" | .attribute => "AttributeError"
   | .value => "ValueError" | .onlyOnce => "CanOnlyDilateOnceError" | .recursion => "model-recursion"
-  | .alreadyCalled => "AlreadyCalled"
+  | .alreadyCalled => "AlreadyCalled" | .typeError => "TypeError"
 
-/-- the peer's `versions` dict, as far as the code looks at it: its truthiness and
-    `.get("can-dilate", [])` -/
-structure Vers where
-  nonempty : Bool
-  can : List String
-  deriving DecidableEq, Repr
+/-- a JSON value as `json.loads` delivers it (numbers only as zero / non-zero: nothing here looks
+    closer) -/
+inductive J where
+  | null
+  | bool (b : Bool)
+  | num (isZero : Bool)
+  | str (s : String)
+  | arr (xs : List J)
+  | obj (kvs : List (String × J))
+  deriving Repr
+
+/-- the peer's `versions` message body: whatever JSON the peer sent (Boss only lets a dict through,
+    the Dilator itself does not check) -/
+abbrev Vers := J
+
+/-- Python truthiness -/
+def J.truthy : J → Bool
+  | .null => false
+  | .bool b => b
+  | .num z => !z
+  | .str s => s != ""
+  | .arr xs => !xs.isEmpty
+  | .obj kvs => !kvs.isEmpty
+
+def J.isNull : J → Bool
+  | .null => true
+  | _ => false
+
+/-- can Python put it into a `set`? -/
+def J.hashable : J → Bool
+  | .arr _ => false
+  | .obj _ => false
+  | _ => true
+
+def J.isStr (x : J) (s : String) : Bool :=
+  match x with
+  | .str t => t == s
+  | _ => false
+
+/-- `dict.get(key, default)` on a JSON object (the last duplicate key wins in `json.loads`) -/
+def lookupKey (k : String) : List (String × J) → Option J
+  | [] => none
+  | (k', v) :: r =>
+    match lookupKey k r with
+    | some x => some x
+    | none => if k' == k then some v else none
 
 /-- a decrypted `dilate-N` payload -/
 inductive Msg where
@@ -392,21 +432,42 @@ def connectionLost (w : World) : Res :=
   if w2.role = some true then mInput .connection_lost_leader "" 0 w2
   else mInput .connection_lost_follower "" 0 w2
 
-/-- `_find_shared_versions(my, their)`: the first of ours that they list -/
-def findShared (my their : List String) : Option String :=
-  my.find? fun v => their.contains v
+/-- `_find_shared_versions(my, their)`: `set(their)` (TypeError if `their` is not iterable or holds
+    a list / dict), intersected with ours; the first of ours that is in it.  A str iterates as its
+    characters, a dict as its keys. -/
+def findShared (my : List String) (their : J) : Except Err (Option String) :=
+  match their with
+  | .arr xs => if xs.all J.hashable then .ok (my.find? fun v => xs.any (·.isStr v)) else .error .typeError
+  | .str s => .ok (my.find? fun v => v.length == 1 && s.toList.any fun c => String.singleton c == v)
+  | .obj kvs => .ok (my.find? fun v => kvs.any fun kv => kv.1 == v)
+  | _ => .error .typeError
+
+/-- `_find_shared_versions(self._acceptable_versions, their_wormhole_versions.get("can-dilate", []))` -/
+def sharedVersion (v : Vers) : Except Err (Option String) :=
+  match v with
+  | .obj kvs =>
+    match lookupKey "can-dilate" kvs with
+    | some c => findShared Consts.DILATION_VERSIONS c
+    | none => findShared Consts.DILATION_VERSIONS (.arr [])
+  | _ => .error .attribute        -- `.get` on something that is not a dict
 
 /-- Python's `not self._dilation_version` ("ged" or None; the empty string is falsy too) -/
 def falsy : Option String → Bool
   | none => true
   | some s => s == ""
 
-/-- `Manager.got_wormhole_versions(v)` -/
-def mgrGotVersions (v : Vers) (w : World) : Res :=
-  let dv := findShared Consts.DILATION_VERSIONS v.can
+/-- the rest of `Manager.got_wormhole_versions` once the shared version is known -/
+def mgrGotVersionsWith (dv : Option String) (w : World) : Res :=
   let w1 := { w with dver := dv }
   let w2 := if falsy dv then mainError w1 else w1
   mInput .start "" 0 w2
+
+/-- `Manager.got_wormhole_versions(v)`; an exception in `_find_shared_versions` leaves everything as
+    it was (nothing is reported to anybody) -/
+def mgrGotVersions (v : Vers) (w : World) : Res :=
+  match sharedVersion v with
+  | .error e => (w, some e)
+  | .ok dv => mgrGotVersionsWith dv w
 
 /-- `Manager.received_dilation_message(plaintext)` -/
 def receivedMsg (m : Msg) (w : World) : Res :=
@@ -428,7 +489,7 @@ def drainMsgs : List Msg → World → Res
 def replayVersions? (pv : Option Vers) : Option Vers :=
   if Flags.pending_versions_guard_is_not_none then pv
   else match pv with
-    | some v => if v.nonempty then some v else none
+    | some v => if v.truthy then some v else none
     | none => none
 
 /-- `if self._pending_dilation_key is not None: m.got_dilation_key(...)` -/
@@ -451,7 +512,8 @@ def gotKey (w : World) : World :=
   if w.hasMgr then { w with key := true } else { w with pKey := true }
 
 def gotVersions (v : Vers) (w : World) : Res :=
-  if w.hasMgr then mgrGotVersions v w else ({ w with pVers := some v }, none)
+  if w.hasMgr then mgrGotVersions v w
+  else ({ w with pVers := if v.isNull then none else some v }, none)   -- JSON null is Python's None
 
 def receivedDilate (m : Msg) (w : World) : Res :=
   if w.hasMgr then receivedMsg m w else ({ w with pMsgs := w.pMsgs ++ [m] }, none)
@@ -545,7 +607,7 @@ inductive Ev where
   | dialfail (j : Nat)
   | kcm (c : Nat)           -- the peer's prologue + handshake + KCM arrive on connection c
   | lost (c : Nat)          -- the network reports connection c lost
-  deriving DecidableEq, Repr
+  deriving Repr
 
 inductive Out where
   | done
@@ -719,19 +781,61 @@ def showWorld (w : World) : String :=
   let cs := (enumFrom 0 w.ctors).map fun (g, st) => showCtor w g st
   s!"{mgr} T={Terminator.State.name w.ts} closed={w.closed} D={b01 w.pKey}{b01 w.pVers.isSome}{w.pMsgs.length} W=[{" ".intercalate (w.waiters.map showW)}] E={w.eps.length} R=[{" ".intercalate w.registered}] C=[{" | ".intercalate cs}]"
 
+def canDilate (l : List String) : Vers := .obj [("can-dilate", .arr (l.map .str)), ("app_versions", .obj [])]
+
 def readVers? : String → Option Vers
-  | "full" => some ⟨true, ["ged"]⟩
-  | "nocan" => some ⟨true, []⟩
-  | "empty" => some ⟨false, []⟩
-  | "disjoint" => some ⟨true, ["vetch"]⟩
-  | "emptylist" => some ⟨true, []⟩
-  | "both" => some ⟨true, ["vetch", "ged"]⟩
+  | "full" => some (canDilate ["ged"])
+  | "nocan" => some (.obj [("app_versions", .obj [])])
+  | "empty" => some (.obj [])
+  | "disjoint" => some (.obj [("can-dilate", .arr [.str "vetch"])])
+  | "emptylist" => some (.obj [("can-dilate", .arr [])])
+  | "both" => some (.obj [("can-dilate", .arr [.str "vetch", .str "ged"])])
   | _ => none
+
+def tail1 (t : String) : String := String.ofList (t.toList.drop 1)
+
+/-- JSON in prefix tokens: `N` `T` `F` `I0` (zero) `I1` (non-zero number) `S<hex>` `A<n> v…` `O<n> S<hex> v …` -/
+def readJ : Nat → List String → Option (J × List String)
+  | 0, _ => none
+  | fuel + 1, t :: ts =>
+    if t == "N" then some (.null, ts)
+    else if t == "T" then some (.bool true, ts)
+    else if t == "F" then some (.bool false, ts)
+    else if t == "I0" then some (.num true, ts)
+    else if t == "I1" then some (.num false, ts)
+    else if t.startsWith "S" then (strOfHex? (tail1 t)).map fun s => (.str s, ts)
+    else if t.startsWith "A" then
+      (tail1 t).toNat?.bind fun n => (readJs fuel n ts).map fun (xs, r) => (.arr xs, r)
+    else if t.startsWith "O" then
+      (tail1 t).toNat?.bind fun n => (readKVs fuel n ts).map fun (kvs, r) => (.obj kvs, r)
+    else none
+  | _, [] => none
+where
+  readJs : Nat → Nat → List String → Option (List J × List String)
+    | _, 0, ts => some ([], ts)
+    | 0, _, _ => none
+    | fuel + 1, n + 1, ts =>
+      (readJ fuel ts).bind fun (x, r) => (readJs fuel n r).map fun (xs, r') => (x :: xs, r')
+  readKVs : Nat → Nat → List String → Option (List (String × J) × List String)
+    | _, 0, ts => some ([], ts)
+    | 0, _, _ => none
+    | fuel + 1, n + 1, ts =>
+      match ts with
+      | k :: r0 =>
+        if k.startsWith "S" then
+          (strOfHex? (tail1 k)).bind fun key =>
+            (readJ fuel r0).bind fun (x, r) => (readKVs fuel n r).map fun (kvs, r') => ((key, x) :: kvs, r')
+        else none
+      | [] => none
 
 def readEv? : List String → Option Ev
   | ["dilate"] => some .dilate
   | ["key"] => some .key
   | ["versions", v] => (readVers? v).map .versions
+  | "versions" :: "j" :: ts =>
+    match readJ (2 * ts.length + 2) ts with
+    | some (v, []) => some (.versions v)
+    | _ => none
   | ["msg", "please", s] => some (.msg (.please s))
   | ["msg", "hints", n] => n.toNat?.map fun k => .msg (.hints k)
   | ["msg", "reconnect"] => some (.msg .reconnect)
